@@ -29,14 +29,16 @@ type ExprGen struct {
 
 func stdEnv() *Env {
 	return &Env{NS: []NSBind{{"p", "urn:u1"}, {"q", "urn:u2"}, {"r", "http://example.com/ns"}, {"p2", "urn:u1"}, {"xml", xmlNS},
-		{"child", "urn:u1"}, {"text", "urn:u2"}, {"self", "urn:u1"}, {"none", ""}}} // "none" is BOUND, to the empty URI: none:x is the no-namespace x
+		{"child", "urn:u1"}, {"text", "urn:u2"}, {"self", "urn:u1"}, {"none", ""}, {"", "urn:u2"}}} // "none" is BOUND, to the empty URI: none:x is the no-namespace x
 }
 
 func NewExprGen(r *Rng, d *Doc, env *Env) *ExprGen {
 	g := &ExprGen{R: r, Doc: d, Env: env,
 		Locals: []string{"a", "b", "c", "d", "item", "x-y", "é", "self", "text", "id", "n", "class", "lang", "nope", "child", "descendant", "node", "a", "b"}}
 	for _, b := range env.NS {
-		g.Prefixes = append(g.Prefixes, b.Prefix)
+		if b.Prefix != "" { // the empty prefix can be bound, but not written
+			g.Prefixes = append(g.Prefixes, b.Prefix)
+		}
 	}
 	for _, v := range env.Vars {
 		if v.Space != "" {
